@@ -229,6 +229,34 @@ def one_case(task):
                     fail(f"adding an unrelated module that uses the other class named ZzPoint changed the stub {pth}",
                          variant="same-name-star", path=pth, before=(ra["files"].get(pth) or "")[:500],
                          after=(rb["files"].get(pth) or "")[:500], reuses_names=False)
+        # (h) a class NESTED in another class of module M, referred to through an un-analysed type (`Final[Layer] = Layer()`
+        #     in the body of the outer class): M must not change when an unrelated module defines and uses a class of the
+        #     same short name (the package-wide alias table then holds two candidates for that name)
+        if f"{root}.zz_canvas" not in {m["qname"] for m in pkg["modules"]}:
+            canvas = plain_module("zz_canvas")
+            canvas["raw_tail"] = ["from typing import Final", "", "class ZzCanvas:", "    class ZzLayer:", "        zz_depth: int = 0",
+                                  "    zz_background: Final[ZzLayer] = ZzLayer()", "    zz_layers: list[ZzLayer, int] = []", ""]
+            other_cls = {"kind": "class", "name": "ZzLayer", "qname": f"{root}.zz_other.ZzLayer", "bases": [], "inst_attrs": [],
+                         "init": None, "attrs": [{"name": "zz_w", "ann": ("int",), "value": "0", "doc": ""}], "methods": [],
+                         "classes": [], "doc": "", "extras": {}}
+            other_fn = {"kind": "function", "name": "zz_use_layer", "method_kind": None, "ret": ("None",), "returns": None, "doc": "",
+                        "result_doc": "", "is_property": False, "result_doc_type": None, "rest_type_first": True,
+                        "params": [{"name": "p", "kind": "POSITION_OR_NAME", "ann": ("cls", "ZzLayer", f"{root}.zz_other.ZzLayer"),
+                                    "default": None, "doc": "", "doc_type": None}]}
+            other = plain_module("zz_other", [other_cls], [other_fn])
+            # the class is also USED in an expression: only expression types enter the package-wide alias table
+            other["raw_tail"] = ["_zz_default_layer = ZzLayer()", ""]
+            out["variants"].append("nested-class-final")
+            va = copy.deepcopy(pkg)
+            va["modules"].append(copy.deepcopy(canvas))
+            vb = copy.deepcopy(va)
+            vb["modules"].append(other)
+            ra, rb = run(va, "h_a"), run(vb, "h_b")
+            pth = f"{root}/zz_canvas/zz_canvas.sdsstub"
+            if ra["outcome"] == "ok" and rb["outcome"] == "ok" and ra["files"].get(pth) != rb["files"].get(pth):
+                fail(f"adding an unrelated module that defines another class named ZzLayer changed the stub {pth}",
+                     variant="nested-class-final", path=pth, before=(ra["files"].get(pth) or "")[:600],
+                     after=(rb["files"].get(pth) or "")[:600], reuses_names=False)
         # (d) the top-level functions of one module are permuted
         cands = [m for m in pkg["modules"] if len(m["functions"]) >= 2 and m["qname"] not in reexp
                  and not any(seg.startswith("_") for seg in m["pkg"][1:] + [m["name"]])]
